@@ -14,7 +14,7 @@
    re-ordered, replayed, reflected, spliced. *)
 From Coq Require Import List NArith ZArith Bool Lia.
 From Coq Require Import ZifyBool ZifyN ZifyNat.
-From LV Require Import Noise.Model Noise.Proofs.
+From LV Require Import Noise.Model Noise.Spec Noise.Proofs.
 Import ListNotations.
 Local Open Scope N_scope.
 
@@ -31,24 +31,8 @@ Section Tamper.
   Notation rmsg := (read_message K W dec hkdf).
   Notation rdn := (read_n K W dec hkdf).
 
-  (* the cipher state after t Seal/Open calls *)
-  Fixpoint chain (c : cst) (t : nat) : cst :=
-    match t with O => c | S k => chain (adv c) k end.
-
-  (* plaintext of the sender's t-th Seal call when it sends msgs *)
-  Fixpoint slot_plain (msgs : list (list N)) (t : nat) : option (list N) :=
-    match msgs, t with
-    | [], _ => None
-    | m :: _, O => Some (be16 (len m))
-    | m :: _, S O => Some m
-    | _ :: r, S (S k) => slot_plain r k
-    end.
-
-  Definition no_forgery (c0 : cst) (msgs : list (list N)) (S' : list W) (bound : nat) : Prop :=
-    forall t pre post p,
-      (t < bound)%nat ->
-      S' = pre ++ enc (cs_key (chain c0 t)) (cs_nonce (chain c0 t)) None p ++ post ->
-      slot_plain msgs t = Some p.
+  Notation chain := (Spec.chain K hkdf).
+  Notation no_forgery := (Spec.no_forgery K W enc hkdf).
 
   Hypothesis ideal_aead : forall k n ad c p, dec k n ad c = Some p -> c = enc k n ad p.
 
